@@ -1,5 +1,6 @@
 """C12 — logistic / Tweedie regression: validation dominates the optimiser; shifted soft-max; decision and probabilities share one score."""
 from . import layout
+import re
 from .core import RuleResult
 from .facts import fn_key, fn_loc, fn_file, walk, strip, peel_refs, pat_bindings, Render
 from .sym import Tracer, Term, Cmp, k, as_term, walk_terms
@@ -90,6 +91,73 @@ def rule_lse(ctx):
     return res.finish(2)
 
 
+def binary_decision(res, F, fn, key):
+    """The binary decision compares a probability with self.threshold.  The compared value must be computed from the
+    same ingredients as the published probabilities (predict_probabilities itself, or the same score function applied
+    to the same model fields), and a probability at or above the threshold must select the positive class."""
+    c = fn["crate"]
+    r = Render(c)
+    pp = [f for f in F.find_fns(name="predict_probabilities", krate="linfa_logistic") if (f["d"].get("self_adt") or "").endswith("FittedLogisticRegression")]
+    if not pp:
+        return False
+    pbody = strip(pp[0]["body"])
+    pval = pbody.get("e") if pbody.get("k") == "Block" and pbody.get("e") is not None else pbody
+    P = set(x for x in ingredients(pp[0], pbody) if not x.startswith("param:"))
+    cands = []
+    for n in walk(fn["body"]):
+        if n.get("k") == "If" and n.get("else") is not None:
+            cond = strip(n["c"])
+            if cond.get("k") == "Binary" and cond["op"] in (">=", ">", "<", "<="):
+                il, ir = ingredients(fn, cond["l"]), ingredients(fn, cond["r"])
+                if "self.threshold" in il or "self.threshold" in ir:
+                    cands.append((n, cond, il, ir))
+    if not cands:
+        return False
+    n, cond, il, ir = cands[0]
+    thr_left = "self.threshold" in il and "self.threshold" not in ir
+    prob = ir if thr_left else il
+    prob = set(x for x in prob if not x.startswith("param:"))
+    res.instance("%s : decision value computed from %s" % (key, sorted(prob)))
+    unresolved = [x for x in prob if x.startswith("?")]
+    if "call:predict_probabilities" in prob:
+        res.ok()
+    elif unresolved:
+        res.undecided("%s : decision-value" % key, "the value compared with the threshold could not be traced (%s)" % unresolved, fn_loc(fn, cond.get("ln")))
+    elif prob == P:
+        res.ok()
+        res.sample({"fn": key, "rule": "decision value and predict_probabilities are built from the same ingredients %s" % sorted(P)})
+    else:
+        res.violate("%s : other-scores" % key, "the value compared with the threshold is built from %s, the published probabilities from %s: the decision is not a threshold on the published probability" % (sorted(prob), sorted(P)), fn_loc(fn, cond.get("ln")))
+    # direction: probability >= threshold -> positive class
+    defs = {}
+    for s_ in walk(fn["body"]):
+        if s_.get("k") == "LetStmt" and s_.get("init") is not None:
+            for b in pat_bindings(s_["pat"]):
+                defs[b["name"]] = r.e(s_["init"])
+
+    def side(t):
+        for nm, d in defs.items():
+            if re.search(r"\b%s\b" % re.escape(nm), t):
+                if ".pos." in d:
+                    return "pos"
+                if ".neg." in d:
+                    return "neg"
+        return "pos" if ".pos." in t else ("neg" if ".neg." in t else None)
+    ts, es = side(r.e(n["then"])), side(r.e(n["else"]))
+    op = cond["op"]
+    prob_left = not thr_left
+    high_is_then = (prob_left and op in (">=", ">")) or (thr_left and op in ("<=", "<"))
+    strict_wrong = False
+    res.instance("%s : prob %s threshold -> %s else %s" % (key, op, ts, es))
+    if ts is None or es is None:
+        res.undecided("%s : class-sides" % key, "the classes selected by the two branches were not identified", fn_loc(fn, n.get("ln")))
+    elif ((high_is_then and ts == "pos" and es == "neg") or (not high_is_then and ts == "neg" and es == "pos")) and not strict_wrong:
+        res.ok()
+    else:
+        res.violate("%s : threshold-direction" % key, "probabilities at or above the threshold are not mapped to the positive class (or the comparison is not against self.threshold)", fn_loc(fn, n.get("ln")))
+    return True
+
+
 def closure_of_for_each(fn):
     for n in walk(fn["body"]):
         if n.get("k") == "MethodCall" and n["name"] == "for_each" and n["args"]:
@@ -97,6 +165,81 @@ def closure_of_for_each(fn):
             if c.get("k") == "Closure":
                 return n, c
     return None, None
+
+
+SEMANTIC_EXTERNAL = {"dot", "argmax", "argmin", "exp", "ln", "sum_axis", "general_mat_vec_mul", "general_mat_mul"}
+
+
+def ingredients(fn, expr, depth=0, seen=None):
+    """What a value is computed from, as a set of names: self fields (`self.params`), calls of functions defined in the
+    workspace (`logistic`, `predict_probabilities`) and a few numeric library calls (dot, argmax, exp).  Locals are followed
+    to their initialisers, loop / closure bindings to the sequences they iterate over.  '?name' marks an unresolved local."""
+    from .layout import with_parents
+    c = fn["crate"]
+    seen = seen if seen is not None else set()
+    out = set()
+    if "_bind" not in fn:
+        binds = {}
+        for n, anc in with_parents(fn["body"]):
+            k_ = n.get("k")
+            if k_ == "LetStmt" and n.get("init") is not None:
+                for b in pat_bindings(n["pat"]):
+                    binds[b["local"]] = n["init"]
+            elif k_ == "Let":
+                for b in pat_bindings(n["pat"]):
+                    binds[b["local"]] = n["init"]
+            elif k_ == "Match":
+                for arm in n["arms"]:
+                    for b in pat_bindings(arm["pat"]):
+                        binds.setdefault(b["local"], n["scrut"])
+            elif k_ == "Closure":
+                # the closure is an argument of some call: its parameters range over that call's receiver / other arguments
+                par = anc[-1] if anc else None
+                src = None
+                if par is not None and par.get("k") == "MethodCall":
+                    src = {"k": "Tup", "es": [par["recv"]] + [a for a in par["args"] if strip(a) is not n]}
+                elif par is not None and par.get("k") == "Call":
+                    src = {"k": "Tup", "es": [a for a in par["args"] if strip(a) is not n]}
+                for p_ in n["params"]:
+                    for b in pat_bindings(p_):
+                        if src is not None:
+                            binds[b["local"]] = src
+        for p_ in fn["params"]:
+            for b in pat_bindings(p_):
+                binds.setdefault(b["local"], None)
+        fn["_bind"] = binds
+    binds = fn["_bind"]
+    for n in walk(expr):
+        k_ = n.get("k")
+        if k_ == "Field":
+            b = peel_refs(n["e"])
+            if b.get("k") == "Path" and b.get("name") == "self":
+                out.add("self." + n["name"])
+        if k_ == "MethodCall":
+            d = c.dfn(n.get("def"))
+            if d is not None and (d.get("krate", "").startswith("linfa") or n["name"] in SEMANTIC_EXTERNAL):
+                out.add("call:" + n["name"])
+        if k_ == "Call":
+            f = strip(n["f"])
+            d = c.dfn(f.get("def")) if f.get("k") == "Path" else None
+            if d is not None and d.get("krate", "").startswith("linfa") and d.get("name") and d["name"][0].islower():
+                out.add("call:" + d["name"])
+        if k_ == "Path" and "def" in n and "local" not in n:
+            d = c.dfn(n["def"])
+            if d is not None and d.get("krate", "").startswith("linfa") and d.get("name") and d["name"][0].islower() and d.get("pk") != "trait":
+                out.add("call:" + d["name"])     # a function passed by name (mapv_inplace(logistic))
+        if k_ == "Path" and "local" in n and n.get("name") != "self":
+            l = n["local"]
+            if l in seen:
+                continue
+            seen.add(l)
+            if l in binds and binds[l] is not None and depth < 8:
+                out |= ingredients(fn, binds[l], depth + 1, seen)
+            elif l in binds and binds[l] is None:
+                out.add("param:" + (n.get("name") or "?"))
+            else:
+                out.add("?" + (n.get("name") or "?"))
+    return out
 
 
 def rule_same(ctx):
@@ -112,6 +255,10 @@ def rule_same(ctx):
         key = fn_key(fn)
         xname = fn["params"][1]["name"] if len(fn["params"]) > 1 and fn["params"][1].get("k") == "Bind" else "x"
         call, clo = closure_of_for_each(fn)
+        if st == "FittedLogisticRegression":
+            done = binary_decision(res, F, fn, key)
+            if done:
+                continue
         if clo is None:
             res.undecided("%s : no-row-closure" % key, "per-row decision closure not found (fail closed)", fn_loc(fn))
             continue
